@@ -15,6 +15,11 @@ import IsoVerif.Model.C11Symmetry
 import IsoVerif.Model.C11Polya
 import IsoVerif.Model.C11Canonical
 import IsoVerif.Gen.EventClasses
+import IsoVerif.Driver.C11Align
+import IsoVerif.Driver.C11Assign
+import IsoVerif.Driver.C11Graph
+import IsoVerif.Driver.C11BedCorr
+import IsoVerif.Driver.C11AssignMirror
 
 namespace IsoVerif.Driver.C11
 open Lean IsoVerif.Driver IsoVerif.Gen IsoVerif.Model IsoVerif.Model.C11
@@ -67,7 +72,7 @@ def mirrorProf (r : ProfileResult) : ProfileResult :=
   let n : Int := r.gene.length
   { gene := r.gene.reverse, read := r.read.reverse, range := (n - r.range.2, n - r.range.1) }
 
-def ops : List (String × Handler) := [
+def baseOps : List (String × Handler) := [
   -- the transformations themselves (compared with the harness's Python versions)
   ("T.shift_list", fun j => do pure (ofIvList (shiftL (← gK j) (← gl j)))),
   ("T.mirror_list", fun j => do pure (ofIvList (mirrorL (← gL j) (← gl j)))),
@@ -323,5 +328,15 @@ def ops : List (String × Handler) := [
       pure (both (o (constructNonOverlapping (mirrorL L known) cmpf d (mirrorL L read) (mirrorPos L polyt) (mirrorPos L polya)))
                  (o ((constructNonOverlapping known cmpf d read polya polyt).map mirrorProf))))
 ]
+
+/-- all C11 ops: the relations on the interval / profile models above + the ops of the extension files (transformations of
+    the merged models; the models themselves are reached through their own properties' ops) -/
+def ops : List (String × Handler) :=
+  baseOps
+  ++ IsoVerif.Driver.C11Align.ops
+  ++ IsoVerif.Driver.C11Assign.ops
+  ++ IsoVerif.Driver.C11Graph.ops
+  ++ IsoVerif.Driver.C11BedCorr.ops
+  ++ IsoVerif.Driver.C11AssignMirror.ops
 
 end IsoVerif.Driver.C11
